@@ -1,5 +1,7 @@
 package vs
 
+import "reflect"
+
 // math/rand and runtime entry points. Random numbers are an environment choice over a small fixed
 // menu (both ends and the middle of the range): deterministic per schedule, explored exhaustively
 // over the menu. This under-approximates the values a real generator can return.
@@ -87,4 +89,38 @@ func NumGoroutine() int {
 		}
 	}
 	return n
+}
+
+// Len / Cap replace the builtins in files that use channels: a shimmed channel is never operated on
+// directly, so the builtin would always report it empty. For anything else they are the builtins.
+func Len(v any) int {
+	rv := reflect.ValueOf(v)
+	if !rv.IsValid() {
+		return 0
+	}
+	if rv.Kind() == reflect.Chan {
+		e := cur
+		if e == nil || rv.IsNil() {
+			return 0
+		}
+		if s := e.chans[rv.Pointer()]; s != nil {
+			return len(s.buf)
+		}
+		return 0
+	}
+	if rv.Kind() == reflect.Ptr { // pointer to array
+		return rv.Elem().Len()
+	}
+	return rv.Len()
+}
+
+func Cap(v any) int {
+	rv := reflect.ValueOf(v)
+	if !rv.IsValid() {
+		return 0
+	}
+	if rv.Kind() == reflect.Ptr {
+		return rv.Elem().Cap()
+	}
+	return rv.Cap()
 }
